@@ -20,6 +20,8 @@ CHECKS = {
          "Term sequences and per-entry counts of AutomatonIterator are compared with the model for six automaton families x key ranges x four provenances; acceptance is decided by stepping the automaton in the harness, independently of the FST walk.", "§3 C08"),
  "C13": ("exploration", "runtime monitoring: model-merge oracle for thesauri over seeded merge plans with synonym documents",
          "Thesaurus term lists and (synonym, document) pair sets under exclusion bitmaps of every merge output are compared with the merge model; classes counted: thesaurus in several inputs, in some inputs only, all definitions deleted, merged-of-merged.", "§3 C13"),
+ "C07": ("exploration", "runtime monitoring: bounded-exhaustive enumeration of postings sets, exclusions, flags and Next/Advance call paths + random reuse histories",
+         "For N<=5 (quick) / N<=7 (thorough) every (P, E, chunk size, detail flags, encoding, residence) and every complete Next/Advance call path is executed on the real iterator (fresh and recycled objects) and compared with the model; larger random instances cover modes 1025/1026 and preallocation-reuse histories. Exhaustive up to the bound, exploration beyond it.", "§3 C07"),
 }
 NOT_YET = {}
 
